@@ -14,7 +14,7 @@
    EVERY list is a schedule.  [remote_read remote start ln] is the specification: io.ReaderAt on the remote. *)
 From Coq Require Import List Arith NArith ZArith Bool.
 Import ListNotations.
-Require Import YF.ReadAt YF.C17_RC YF.C17_Check.
+Require Import YF.ReadAt YF.C17_RC YF.C17_Check YF.Generated.RangePredsC17 YF.C17_Preds.
 
 (* the specification side is io.ReaderAt on the remote bytes (a read not inside the file is None) *)
 Theorem C17_spec_is_read_at : forall remote start ln, (0 <= start)%Z -> (0 <= ln)%Z ->
@@ -210,6 +210,23 @@ Example C17_nonvacuous_checker :
                                 [((0, 6), [10; 11; 12; 13; 14; 15]%N)]) ]) ] = [].
 Proof. vm_compute. split; reflexivity. Qed.
 
+(* THE TIE TO THE SOURCE for the range predicates: coq/Generated/RangePredsC17.v is (Range).contains, the argument
+   checks of getRange / setRange and (Range).isValidFor, translated expression by expression from
+   range-cache/range-cache.go by gen/c17.go on every check. They are the predicates of the model. *)
+Theorem C17_translated_contains_is_the_models : forall r r2 : range,
+  contains_c17 (Z.of_nat (fst r)) (Z.of_nat (snd r)) (Z.of_nat (fst r2)) (Z.of_nat (snd r2)) = contains r r2.
+Proof. exact contains_is_model. Qed.
+Theorem C17_translated_argument_check_is_the_models : forall start stop size,
+  invalid_range_get_c17 start stop size = ((start <? 0) || (size <? stop) || (stop <? start))%Z /\
+  invalid_range_set_c17 start stop size = ((start <? 0) || (size <? stop) || (stop <? start))%Z.
+Proof. exact invalid_range_is_model. Qed.
+Theorem C17_translated_is_valid_for_is_the_complement : forall r0 r1 size,
+  is_valid_for_c17 r0 r1 size = negb (invalid_range_get_c17 r0 r1 size).
+Proof. exact is_valid_for_is_complement. Qed.
+
+Print Assumptions C17_translated_contains_is_the_models.
+Print Assumptions C17_translated_argument_check_is_the_models.
+Print Assumptions C17_translated_is_valid_for_is_the_complement.
 Print Assumptions C17_spec_is_read_at.
 Print Assumptions C17_invariant_initially.
 Print Assumptions C17_invariant_preserved.
